@@ -20,6 +20,11 @@ using sim::Rng;
 enum { CELL_ERR = 0, CELL_NEXT_ID = 1, CELL_BASE = 16 };
 enum { EV_DTOR = 1, EV_DROP = 2 };
 
+struct Obj;
+// set while a single-thread history runs: lets a dying object look at the handle variables
+struct DyingHook { virtual void dying(const Obj*) = 0; virtual ~DyingHook() {} };
+DyingHook* g_dying = nullptr;
+
 struct Obj : public tlx::ReferenceCounter {
     int id;
     int payload;
@@ -33,6 +38,9 @@ struct Obj : public tlx::ReferenceCounter {
         if (sim::rt_cell_get(uint32_t(CELL_BASE + id)) != 1) sim::rt_cell_add(CELL_ERR, 1);
         sim::rt_cell_set(uint32_t(CELL_BASE + id), 2);
         sim::event(EV_DTOR, id);
+        // "never while a handle remains": seen from inside the destructor (a destructor may look at, or
+        // copy, a handle variable -- the "current object" pattern), no handle variable points here any more
+        if (g_dying) g_dying->dying(this);
         payload = -1;
     }
 };
@@ -76,13 +84,27 @@ void generate(Rng& r, Workload& w, int tier) {
 }
 
 // ---- mode 0 -----------------------------------------------------------------
-struct History {
+struct History : public DyingHook {
     static constexpr int NS = 5, ND = 2;
+    std::string dying_msg;
+    void dying(const Obj* o) override {
+        auto note = [&](const char* what, int idx) {
+            if (dying_msg.empty()) dying_msg = "object " + std::to_string(o->id) + " is being destroyed while " + what + std::to_string(idx) + " still points to it";
+        };
+        for (int i = 0; i < NS; ++i) if (s[i] && s[i]->get() == o) note("handle h", i);
+        for (int k = 0; k < ND; ++k) if (d[k] && d[k]->get() == o) note("handle d", k);
+        int last_id = int(sim::rt_cell_get(CELL_NEXT_ID));
+        for (int id = 1; id <= last_id && size_t(id) < alive_ptr.size(); ++id)
+            if (alive_ptr[size_t(id)] && alive_ptr[size_t(id)] != o && sim::rt_cell_get(uint32_t(CELL_BASE + id)) == 1 &&
+                alive_ptr[size_t(id)]->next.get() == o)
+                note("the next-handle of object ", id);
+    }
+    ~History() { g_dying = nullptr; }
     std::unique_ptr<Ptr> s[NS];
     std::unique_ptr<DPtr> d[ND];
     int created = 0;
     Result& res;
-    explicit History(Result& r) : res(r) {}
+    explicit History(Result& r) : res(r) { g_dying = this; }
 
     Ptr& slot(int i) { if (!s[i]) s[i] = std::make_unique<Ptr>(); return *s[i]; }
     DPtr& dslot(int k) { if (!d[k]) d[k] = std::make_unique<DPtr>(); return *d[k]; }
@@ -90,6 +112,7 @@ struct History {
     void check(const std::string& after) {
         int last_id = int(sim::rt_cell_get(CELL_NEXT_ID));
         if (sim::rt_cell_get(CELL_ERR) != 0) { res.fail("cptr_double_destroy", "object destroyed twice after " + after); return; }
+        if (!dying_msg.empty()) { res.fail("cptr_destroyed_while_owned", dying_msg + " (during " + after + ")"); return; }
         std::vector<int> cnt(size_t(last_id) + 1, 0);
         auto see = [&](const Obj* p, size_t use, bool uniq, const char* what, int idx) {
             if (!p) return;
